@@ -17,6 +17,8 @@ SHAPES = {
     'Diamond': ('PY_Diamond', 'CO_Diamond', 4, 3,
                 {'0': [], '1': [0], '2': [1], '3': [1], '4': [2, 3]},
                 [4, 4, 2]),
+    'Tri': ('PY_Tri', 'CO_Tri', 3, 3,
+            {'0': [], '1': [0], '2': [1], '3': [2, 1]}, [3, 3, 2]),
     'Mixin': ('PY_Mixin', 'CO_Mixin', 4, 3,
               {'0': [], '1': [0], '2': [1], '3': [0], '4': [2, 3]},
               [4, 4, 2]),
@@ -28,6 +30,9 @@ INVS = ['TypeOK', 'ProvidedWithinInterval', 'NoLeak', 'SuperIsRestOfMro',
 PLAN = {
     ('C01', 'quick'): [('Two', 5, 'Args1', False, True, 'AllOps', 'mc', 0),
                        ('Chain', 4, 'Args1', False, False, 'AllOps', 'mc', 0),
+                       ('Tri', 4, 'Args1', False, False, 'ClassOps', 'mc', 0),
+                       ('Tri', 12, 'Args12', False, True, 'AllOps', 'sim',
+                        300),
                        ('Mixin', 12, 'Args12', False, True, 'AllOps', 'sim',
                         500),
                        ('Diamond', 14, 'Args12', False, True, 'AllOps', 'sim',
@@ -39,6 +44,10 @@ PLAN = {
                            'mc', 0),
                           ('Mixin', 5, 'Args1', False, False, 'AllOps', 'mc',
                            0),
+                          ('Tri', 5, 'Args1', False, False, 'AllOps', 'mc',
+                           0),
+                          ('Tri', 20, 'Args12', False, True, 'AllOps',
+                           'sim', 8000),
                           ('Mixin', 20, 'Args12', False, True, 'AllOps',
                            'sim', 8000),
                           ('Diamond', 20, 'Args12', False, True, 'AllOps',
